@@ -1152,6 +1152,33 @@ def ord_cmp_value(ex, st, x, y, depth):
     raise Inconclusive('Ord::cmp on %r, %r' % (x, y))
 
 
+def m_iter_min_max(ex, st, fr, callee, a, depth):
+    """Iterator::min / max over plain data (Ord as derive defines it; node indices by their index): the last maximum / first minimum as std specifies"""
+    want_max = callee.endswith('::max')
+    outs = []
+    for s, xs in elems(ex, st, a[0], depth):
+        if not xs:
+            outs.append((s, NONE))
+            continue
+        cur = [(s, xs[0])]
+        for x in xs[1:]:
+            nxt = []
+            for s1, best in cur:
+                b0, x0 = deref(s1, best), deref(s1, x)
+                if isinstance(b0, Opaque) and isinstance(x0, Opaque) and b0.tag == x0.tag and b0.tag in ('node', 'edge'):
+                    cs_ = [(s1, 'Less' if b0.p < x0.p else ('Equal' if b0.p == x0.p else 'Greater'))]
+                else:
+                    cs_ = ord_cmp_value(ex, s1, best, x, depth)
+                for s2, c in cs_:
+                    if want_max:
+                        nxt.append((s2, x if c in ('Less', 'Equal') else best))      # max returns the LAST maximal element
+                    else:
+                        nxt.append((s2, x if c == 'Greater' else best))              # min returns the FIRST minimal element
+            cur = nxt
+        outs += [(s1, some(best)) for s1, best in cur]
+    return outs
+
+
 def m_ord_cmp_generic(ex, st, fr, callee, a, depth):
     """<Vec<T> / bool / plain struct as Ord>::cmp: lexicographic, false < true, field by field"""
     return [(s, ordering(c)) for s, c in ord_cmp_value(ex, st, a[0], a[1], depth)]
@@ -1172,6 +1199,7 @@ def m_btreeset_iter_sorted(ex, st, fr, callee, a, depth):
 MODELS2 = [
     (P(r'^BTreeSet::<(?!char>).*>::iter$|^<&BTreeSet<(?!char>).*> as IntoIterator>::into_iter$'), m_btreeset_iter_sorted),
     (P(r'^<(Vec<.*>|bool) as (Partial)?Ord>::cmp$'), m_ord_cmp_generic),
+    (P(r' as Iterator>::(min|max)$'), m_iter_min_max),
     (P(r'^CharRange::all$'), m_charrange_all),
     (P(r'^CharRange::iter$'), m_charrange_iter),
     (P(r'^<CharIter as Iterator>::position::<'), m_chariter_position),
